@@ -12,14 +12,23 @@
 
 struct l1s_state l1s;
 
-static struct { int cb; uint8_t p1, p2; uint16_t p3; } calls[64];
+static struct { int cb; uint8_t p1, p2; uint16_t p3; int rc; } calls[64];
 static int n_calls;
 
 #define CB(n) static int cb##n(uint8_t p1, uint8_t p2, uint16_t p3) { \
 	if (n_calls < 64) { calls[n_calls].cb = n; calls[n_calls].p1 = p1; calls[n_calls].p2 = p2; calls[n_calls].p3 = p3; } \
 	n_calls++; return 0; }
 CB(0) CB(1) CB(2) CB(3) CB(4) CB(5)
-static tdma_sched_cb *cbs[6] = { cb0, cb1, cb2, cb3, cb4, cb5 };
+/* callback 6 schedules a follow-up item (callback 0, same parameters, priority 0) p2 & 3 frames ahead - the scheduler
+ * documents that a callback may schedule more items, also for the current frame */
+static int cb6(uint8_t p1, uint8_t p2, uint16_t p3)
+{
+	int slot = n_calls++;
+	int rc = tdma_schedule(p2 & 3, cb0, p1, p2, p3, 0);
+	if (slot < 64) { calls[slot].cb = 6; calls[slot].p1 = p1; calls[slot].p2 = p2; calls[slot].p3 = p3; calls[slot].rc = rc; }
+	return 0;
+}
+static tdma_sched_cb *cbs[7] = { cb0, cb1, cb2, cb3, cb4, cb5, cb6 };
 
 int main(void)
 {
@@ -34,7 +43,7 @@ int main(void)
 			if (op == 'S') {
 				int off = strtol(p, &p, 10), cb = strtol(p, &p, 10), p1 = strtol(p, &p, 10), p2 = strtol(p, &p, 10);
 				int p3 = strtol(p, &p, 10), prio = strtol(p, &p, 10);
-				printf("s %d\n", tdma_schedule(off, cbs[cb % 6], p1, p2, p3, prio));
+				printf("s %d\n", tdma_schedule(off, cbs[cb % 7], p1, p2, p3, prio));
 			} else if (op == 'T') {
 				int off = strtol(p, &p, 10), p3 = strtol(p, &p, 10), n = strtol(p, &p, 10);
 				struct tdma_sched_item *set = calloc(n + 1, sizeof(*set));
@@ -43,7 +52,7 @@ int main(void)
 					char k = *p++;
 					if (k == 'f') { set[i].cb = NULL; }
 					else {
-						set[i].cb = cbs[strtol(p, &p, 10) % 6];
+						set[i].cb = cbs[strtol(p, &p, 10) % 7];
 						set[i].p1 = strtol(p, &p, 10); set[i].p2 = strtol(p, &p, 10);
 						set[i].prio = strtol(p, &p, 10); set[i].flags = strtol(p, &p, 10);
 						set[i].p3 = 0x7777;
@@ -59,8 +68,10 @@ int main(void)
 				n_calls = 0;
 				int rc = tdma_sched_execute();
 				printf("x %d %d", rc, n_calls);
-				for (int i = 0; i < n_calls && i < 64; i++)
+				for (int i = 0; i < n_calls && i < 64; i++) {
 					printf(" %d:%u:%u:%u", calls[i].cb, calls[i].p1, calls[i].p2, calls[i].p3);
+					if (calls[i].cb == 6) printf(":%d", calls[i].rc);
+				}
 				printf("\n");
 			} else if (op == 'R') {
 				tdma_sched_reset();
